@@ -4,6 +4,7 @@
      pfx   : - | atom            qname : pfx,atom         ouri : - | <n>
      op    : T | E | A|qname|ouri|ouri|v | M|qname|ouri|ouri|ouri|pdef
            | L|qname|pfx=uri+...|uri+...|qname=v+...       (empty list: _)
+           | LO|<as L>  ...A ops of the attribute sets...  LA|pfx=uri+...|qname=v+...   (LRE with use-attribute-sets)
    output line: <id> <hazards joined by +, or -> <wellformed 0/1> <event> <event> ...
      event : S|qname|requri,reqatom|name=val=requri,reqatom&...   |  E  |  T *)
 let atom_of s =
@@ -28,6 +29,14 @@ let op_of s =
             list_of ins (fun x -> let (a, b) = pair_of x in (pfx_of a, n_of_int (int_of_string b))),
             list_of ex (fun x -> n_of_int (int_of_string x)),
             list_of ats (fun x -> let (a, b) = pair_of x in (qname_of a, n_of_int (int_of_string b))))
+  | ["LO"; q; ins; ex; ats] ->
+      OLreOpen (qname_of q,
+            list_of ins (fun x -> let (a, b) = pair_of x in (pfx_of a, n_of_int (int_of_string b))),
+            list_of ex (fun x -> n_of_int (int_of_string x)),
+            list_of ats (fun x -> let (a, b) = pair_of x in (qname_of a, n_of_int (int_of_string b))))
+  | ["LA"; ins; ats] ->
+      OLreAttrs (list_of ins (fun x -> let (a, b) = pair_of x in (pfx_of a, n_of_int (int_of_string b))),
+            list_of ats (fun x -> let (a, b) = pair_of x in (qname_of a, n_of_int (int_of_string b))))
   | _ -> failwith ("op " ^ s)
 let s_atom = function
   | AXmlns -> "x" | AXml -> "m" | AXmlish n -> "X" ^ string_of_int (int_of_n n)
@@ -36,7 +45,7 @@ let s_pfx = function None -> "-" | Some a -> s_atom a
 let s_qname (p, l) = s_pfx p ^ "," ^ s_atom l
 let s_ename (u, l) = string_of_int (int_of_n u) ^ "," ^ s_atom l
 let s_hz = function
-  | HK17 -> "K17" | HDeclAttr -> "DeclAttr" | HElemEmptyNs -> "ElemEmptyNs" | HUnsupported -> "Unsupported"
+  | HK17 -> "K17" | HDeclAttr -> "DeclAttr" | HElemEmptyNs -> "ElemEmptyNs" | HLateLiteral -> "LateLiteral" | HUnsupported -> "Unsupported"
 let s_event = function
   | EStart (q, req, attrs) ->
       "S|" ^ s_qname q ^ "|" ^ s_ename req ^ "|" ^
